@@ -399,7 +399,19 @@ ADDENDA_R7 = {
 }
 
 
-# After round 7 (repairs of F-C15k and F-C15u; DESIGN.md sections 0 and 4).
+# Round 8, and for C15 the repairs of F-C15k and F-C15u made just before it (DESIGN.md section 8).
 ADDENDA_R8 = {
+    "C02": ("R02.11", "an overload written under a run-time `if (` never marks the remaining overloads dead", "gated reachability keyed on the flag that selects the emitted opener"),
+    "C04": ("not-a-member gate of R04.1", "a function whose scope is a class never reaches the free-function export", "gated reachability"),
+    "C05": ("R05.11", "a method/destructor is folded into the base class's record only for a sole, public, non-virtual base", "four edge facts on both sinks"),
+    "C06": ("R06.15", "function scopes made by the grammar hang under the declarator's scope", "contradiction rule over the generated parser"),
+    "C07": ("R07.15", "every multi-operand arm of CPPExpression::output prints its own parentheses unconditionally (types are keyed by printed name)", "emission-sequence analysis of switch arms"),
+    "C09": ("R09.11", "__has_include and #include ask find_include with the same angle flag", "sibling agreement on a computed argument"),
+    "C10": ("R10.10", "own members enter the virtual-function list on SC_virtual alone", "flag-test extraction from the gating condition"),
+    "C11": ("R11.11", "no renumbering (or any update) is applied to a by-value range-for copy", "lost-update lint over all range-for loops, with a built-in positive example"),
+    "C14": ("R14.9", "every arm of pdtoa/Prettify terminates the text it writes into the caller's uninitialised buffer", "per-arm store analysis"),
+    "C16": ("R16.5", "the path given to find_dependency_cycle is fresh for every start library", "declaration placement / must-pass-through clear()"),
+    "C17": ("R17.9", "search directories are made absolute before main() changes directory", "element-granular must-pass-through reachability"),
+    "C20": ("R20.11", "merge_from's local table is asked with the name it is keyed by (a merged-away type cannot be found by its own name)", "key-accessor agreement"),
     "C15": ("R15.14 (guard-object form), R15.24", "the recursion guard of the class-trait predicates may be a scoped guard object over a function-static set, whose class is itself judged (registers, answers, unregisters); the class hierarchy is acyclic by construction: only frozen writers touch _derivation, every base comes from a class_derivation_name action, and those assign a looked-up type only where the cycle predicate answered false (found F-C15u)", "who-may-write table, gated reachability in the generated parser's action cases (bison's case numbering), structural obligations on the predicate"),
 }
